@@ -274,6 +274,9 @@ func checkTplEntryPoints(c *Ctx, src string, vars map[string]string, main string
 				unambiguous = false // two keys that differ in case only: which one wins depends on their spelling
 			}
 			folded[strings.ToLower(k)] = true
+			if strings.ToLower(swapCase(k)) != strings.ToLower(k) {
+				unambiguous = false // a character whose case mappings do not round-trip (long s, Kelvin sign, …)
+			}
 			flipped[swapCase(k)] = v
 		}
 		if unambiguous {
